@@ -135,6 +135,24 @@ pub fn check(v: &View, vd: &mut Verdict) {
                 let got = v.invs.iter().filter(|x| x.actor == s && x.msg == want).count();
                 // the child may have been stopped from outside before the broadcast
                 let child_alive = v.actors[s].spawned.is_some_and(|sp| sp < *at) && *at < v.alive_until(s);
+                if is_target && got == 1 {
+                    // the broadcast is in the child's mailbox when send_to_children returns: a message
+                    // submitted to the child after the broadcasting handler had finished comes after it
+                    let b_inv = v.invs.iter().find(|x| x.actor == s && x.msg == want).unwrap();
+                    if let Some(bexit) = i.exit {
+                        for o in v.client_ops().filter(|o| o.actor == Some(s) && matches!(o.what, OpWhat::Send | OpWhat::Call) && o.begin > bexit) {
+                            if let Some(m) = o.msg.and_then(|id| v.inv_of_msg(id).into_iter().next()) {
+                                vd.class("direct_message_after_broadcast");
+                                if m.enter < b_inv.enter {
+                                    vd.fail(
+                                        "C16/broadcast_overtaken",
+                                        format!("broadcast tag {tag} ({reg:?}) was sent by actor {} in a handler that finished at {bexit}; message {} submitted to child {s} at {} was handled at {}, before the broadcast at {}", i.actor, o.msg.unwrap(), o.begin, m.enter, b_inv.enter),
+                                    );
+                                }
+                            }
+                        }
+                    }
+                }
                 if is_target {
                     if got > 1 {
                         vd.fail("C16/broadcast_duplicated", format!("broadcast tag {tag} ({reg:?}) of actor {} was handled {got} times by child {s}", i.actor));
